@@ -212,7 +212,7 @@ func (rd *reader) eofProvenance(rule string) {
 				}
 			}
 		}
-		remDone := rem != nil && (knowsLt(p, len(p.Lits), 1, is(rem)) || func() bool { v, isC := rem.Int64(); return isC && v <= 0 }())
+		remDone := rem != nil && (knowsLt(p, len(p.Lits), 1, isW(p.X, rem)) || func() bool { v, isC := rem.Int64(); return isC && v <= 0 }())
 		finSeen := fin != nil && (hasLit(p, len(p.Lits), true, func(x *core.Term) bool { return x == fin }) || func() bool { b, isB := fin.BoolVal(); return isB && b }())
 		if !(remDone && finSeen) {
 			ok = false
